@@ -3,6 +3,7 @@ package main
 // SSA interpreter with symbolic leaves.  One Interp per explored path.
 
 import (
+	"encoding/base64"
 	"fmt"
 	"go/constant"
 	"go/token"
@@ -608,8 +609,27 @@ func (in *Interp) global(g *ssa.Global) *Cell {
 	if c, ok := in.globals[g]; ok {
 		return c
 	}
-	c := in.newCell(in.zero(deref(g.Type())))
+	c := in.newCell(nil)
 	c.Glob = g
+	if g.Pkg != nil && g.Pkg.Pkg.Path() == "encoding/base64" {
+		var enc *base64.Encoding
+		switch g.Name() {
+		case "StdEncoding":
+			enc = base64.StdEncoding
+		case "URLEncoding":
+			enc = base64.URLEncoding
+		case "RawStdEncoding":
+			enc = base64.RawStdEncoding
+		case "RawURLEncoding":
+			enc = base64.RawURLEncoding
+		}
+		if enc != nil {
+			c.V = PtrV{in.newCell(Opaque{Kind: "b64", Obj: enc})}
+			in.globals[g] = c
+			return c
+		}
+	}
+	c.V = in.zero(deref(g.Type()))
 	in.globals[g] = c
 	return c
 }
